@@ -12,11 +12,12 @@ func init() { registry["C15"] = checkC15 }
 var c15Ops = []string{"(*rest.bootstrapContext).InsertConfig", "(*rest.bootstrapContext).UpdateConfig", "(*rest.bootstrapContext).DeleteConfig"}
 
 func checkC15(c *Ctx, r *Report) {
-	r.Explain = "Decides structural necessary conditions of consistent database configurations: (R1) the two-document protocol is ordered — inside each registry worker the registry is written only after the recovery read (getRegistryAndDatabase) succeeded and the registry mutation was accepted; the config document is written/deleted only after the registry loop succeeded; the finalising registry update only after the config write succeeded; a registry rollback to an existing config first fences the config document (CAS touch) and writes the registry only on the fence's success edge; (R2) the registry document and the per-database config documents are written only by the listed owners; (R3) every such write carries a CAS read earlier in the same operation (insert only for a registry that did not exist); (R4) loads are version-matched — a config is returned as current only on the version-equal edge (or the listed repair case), and an in-flight delete is re-attempted only for a config document that still carries the version the registry recorded; deleted entries are skipped when enumerating; (R5) storage failures on the operation paths propagate. Not decided: the outcome of recovery from each crash state, races between nodes, collection-conflict computation."
+	r.Explain = "Decides structural necessary conditions of consistent database configurations: (R1) the two-document protocol is ordered — inside each registry worker the registry is written only after the recovery read (getRegistryAndDatabase) succeeded and the registry mutation was accepted; the config document is written/deleted only after the registry loop succeeded; the finalising registry update only after the config write succeeded; a registry rollback to an existing config first fences the config document (CAS touch) and writes the registry only on the fence's success edge; (R2) the registry document and the per-database config documents are written only by the listed owners; (R3) every such write carries a CAS read earlier in the same operation (insert only for a registry that did not exist); (R4) loads are version-matched — a config is returned as current only on the version-equal edge (or the listed repair case), and an in-flight delete is re-attempted only for a config document that still carries the version the registry recorded; deleted entries are skipped when enumerating; (R5) storage failures on the operation paths propagate.; (R6) in-flight conflicts are computed against the previous version's collections, active conflicts against the current ones. Not decided: the outcome of recovery from each crash state, races between nodes, collection-conflict computation."
 	c15R1(c, r)
 	c15R2R3(c, r)
 	c15R4(c, r)
 	c15R5(c, r)
+	c15R6(c, r)
 }
 
 func c15Lits(fn *ssa.Function) []*ssa.Function {
@@ -384,4 +385,77 @@ func c15R5(c *Ctx, r *Report) {
 		{Func: "(*rest.bootstrapContext).getGatewayRegistry", Callee: "bucketExists", Reason: "only consulted to refine a failed registry read into 'bucket no longer exists'; the original read error is returned otherwise"},
 	}
 	runFailEdge(c, r, "C15-R5", fe, func(fn *ssa.Function) bool { return scope[c.FuncName(TopLevel(fn))] }, table)
+}
+
+// C15-R6: collections of a database whose update is in flight (registry entry with a previous version) stay reserved for the
+// rollback: the in-flight conflict check compares the requested collections with the PREVIOUS version's scopes, the active conflict
+// check with the current ones (sibling functions with the same shape — a swapped field compiles).
+func c15R6(c *Ctx, r *Report) {
+	r.Rule("C15-R6", "E3 def-use (sibling agreement)", "getPreviousConflicts feeds findCollectionConflicts with the scopes of the registry entry's previous version (under PreviousVersion != nil); getCollectionConflicts with the entry's current scopes", 2)
+	for _, s := range []struct {
+		fn      string
+		viaPrev bool
+	}{{"(*rest.GatewayRegistry).getPreviousConflicts", true}, {"(*rest.GatewayRegistry).getCollectionConflicts", false}} {
+		fn := c.Func(s.fn)
+		if fn == nil {
+			r.Fail("C15-R6", "anchor "+s.fn, "-", "function not found")
+			continue
+		}
+		calls := c.Calls(fn, false, nameIs("rest.findCollectionConflicts"))
+		if len(calls) == 0 {
+			r.Fail("C15-R6", "fn="+s.fn+" call=findCollectionConflicts", c.Pos(fn.Pos()), "the conflict computation was not found")
+			continue
+		}
+		for i, call := range calls {
+			a := call.Common().Args
+			reg := a[len(a)-1]
+			// the registry-side scopes: every non-default source must be a read of field Scopes
+			viaPrev, direct, other := false, false, false
+			seen := map[ssa.Value]bool{}
+			var walk func(v ssa.Value)
+			walk = func(v ssa.Value) {
+				if v == nil || seen[v] {
+					return
+				}
+				seen[v] = true
+				v = unwrap(unwrapLoadFree(v))
+				if phi, ok := v.(*ssa.Phi); ok {
+					for _, e := range phi.Edges {
+						walk(e)
+					}
+					return
+				}
+				if f, b := fieldRead(v); f != nil && f.Name() == "Scopes" {
+					// is the struct reached through the PreviousVersion field?
+					if DependsOn(b, func(x ssa.Value) bool { pf, _ := fieldRead(x); return pf != nil && pf.Name() == "PreviousVersion" }) {
+						viaPrev = true
+					} else {
+						direct = true
+					}
+					return
+				}
+				if ad, ok := loadOf(v); ok {
+					if _, isGlobal := ad.(*ssa.Global); isGlobal {
+						return // defaultOnlyRegistryScopes
+					}
+					sts := storesInto(rootAddr(ad))
+					if len(sts) > 0 {
+						for _, st := range sts {
+							walk(st.Val)
+						}
+						return
+					}
+				}
+				other = true
+			}
+			walk(reg)
+			ok := !other && ((s.viaPrev && viaPrev && !direct) || (!s.viaPrev && direct && !viaPrev))
+			want := "the entry's current scopes"
+			if s.viaPrev {
+				want = "the scopes of the entry's previous version"
+			}
+			r.Check("C15-R6", fmt.Sprintf("fn=%s conflicts-computed-against #%d", s.fn, i+1), c.Pos(call.Pos()), ok, "compares with "+want,
+				"the conflict check does not compare the requested collections with "+want+": collections that a half-applied update moved away from are not reserved for its rollback (or an in-flight update is judged by its new collections), so two databases can end up owning the same collection")
+		}
+	}
 }
